@@ -366,8 +366,8 @@ type explorer struct {
 	nTerms   int
 	nLoops   int
 	nCarried int
-	havoc    map[*ssa.BasicBlock]map[*ssa.Alloc]bool // loop header -> cells to havoc
-	havocF   map[*ssa.BasicBlock]map[psFieldKey]bool   // loop header -> fields of local structs written in the loop
+	havoc    map[*ssa.BasicBlock]map[*ssa.Alloc]bool     // loop header -> cells to havoc
+	havocF   map[*ssa.BasicBlock]map[psFieldKey]bool     // loop header -> fields of local structs written in the loop
 	fills    map[*ssa.BasicBlock]map[*ssa.MakeSlice]bool // loop header -> pre-sized slices filled by index in the loop
 	rerun    bool
 	carried  map[int][]*T          // loop instance -> ... sources per carried id
@@ -381,10 +381,10 @@ type explorer struct {
 }
 
 type carriedOrigin struct {
-	phi   *ssa.Phi
-	cell  cellKey
-	field string // key into state.fields: a field of a local struct that is updated inside the loop
-	fill  *ssa.MakeSlice // a slice made with the length of the ranged collection and filled by index: read as an accumulator
+	phi       *ssa.Phi
+	cell      cellKey
+	field     string         // key into state.fields: a field of a local struct that is updated inside the loop
+	fill      *ssa.MakeSlice // a slice made with the length of the ranged collection and filled by index: read as an accumulator
 	fillFrame int
 }
 
